@@ -16,6 +16,7 @@ import SkModel.Since
 import SkModel.Collection
 import SkModel.ParStore
 import SkModel.Runner
+import SkModel.Collect
 import SkModel.Spec.Lines
 
 open Lean Sk
@@ -522,10 +523,61 @@ def runPoolCase (j : Json) : Json :=
     ("finished", Json.arr (sF.finished.map fun e => Json.arr #[toJson e.1, toJson e.2]).toArray),
     ("pending", toJson sF.pending)]
 
+/-! ### Collect (C02): validate the hand-over trace of a multi-process run -/
+
+def runCollectCase (j : Json) : Json :=
+  let lens := (arrF j "lens").map asNat
+  let n := lens.size
+  let seq : Nat → List Nat := fun t => List.range (lens.getD t 0)
+  let s0 : CState Nat := CState.init none (natF j "FLUSH") (natF j "MAXB") n seq
+  let evs := (arrF j "events").toList
+  let rec go (s : CState Nat) (evs : List Json) (i : Nat) : CState Nat × Option (Nat × String) :=
+    match evs with
+    | [] => (s, none)
+    | e :: rest =>
+      let a := asArr e
+      let x := asNat (a.getD 1 .null)
+      let cnt := asNat (a.getD 2 .null)
+      let kind := asStr (a.getD 0 .null)
+      let chk : Option String :=
+        match kind with
+        | "put" => match (s.tasks x).remaining with
+          | b :: _ => if b.length == cnt then none
+                      else some s!"task {x} puts a batch of {cnt} results, the model's next batch has {b.length}"
+          | [] => some s!"task {x} puts a batch but the model has none left"
+        | "tget" | "pget" => match takeFirst x s.queue with
+          | some (b, _) => if b.length == cnt then none
+                           else some s!"collector receives {cnt} results of source {x}, the model's oldest queued batch of that source has {b.length}"
+          | none => some s!"collector receives a batch of source {x} that is not queued in the model"
+        | "finish" => if (s.tasks x).total == cnt then none
+                      else some s!"task {x} reports {cnt} results, the model {(s.tasks x).total}"
+        | _ => none
+      match chk with
+      | some why => (s, some (i, why))
+      | none =>
+        let l : Option CLbl := match kind with
+          | "put" => some (.put x) | "finish" => some (.finish x)
+          | "tget" => some (.threadGet x) | "pget" => some (.purgeGet x)
+          | "stop" => some .stopThread | "texit" => some .threadExit
+          | "pexit" => some .purgeExit | _ => none
+        match l with
+        | none => (s, some (i, s!"unknown event {kind}"))
+        | some l => match cstep s l with
+          | some s' => go s' rest (i + 1)
+          | none => (s, some (i, s!"event {kind} {x} is not an enabled step of the model"))
+  let (sF, bad) := go s0 evs 0
+  Json.mkObj [("valid", toJson bad.isNone),
+    ("at", match bad with | some (i, _) => toJson i | none => .null),
+    ("why", match bad with | some (_, w) => Json.str w | none => .null),
+    ("returned", toJson (sF.phase == .returned)),
+    ("collected", toJson ((List.range n).map fun t => (sF.collected t).length)),
+    ("batches", toJson ((List.range n).map fun t => ((s0.tasks t).remaining.map List.length)))]
+
 def handle (j : Json) : Json :=
   match strF j "kind" with
   | "task" => Json.mkObj [("model", runTaskCase j), ("specSimple", specSimpleCase j),
                           ("specSeq", specSeqCase j), ("specGate", specGateCase j)]
+  | "collect" => Json.mkObj [("model", runCollectCase j)]
   | "plan" => Json.mkObj [("model", runPlanCase j)]
   | "run" => Json.mkObj [("model", runRunCase j)]
   | "pool" => Json.mkObj [("model", runPoolCase j)]
